@@ -98,13 +98,16 @@ func c19MakeCfg(seed uint64, run int, tier string) c19Cfg {
 	c.Procs = []int{2, 4, 8}[r.IntN(3)]
 	c.Segs = 8
 	c.SegOps = 250
-	c.Ballast = []int{0, 1500, 6000}[r.IntN(3)]
-	c.GCPercent = []int{1, 1, 10, 100}[r.IntN(4)]
-	c.GCPauseUS = []int{0, 100, 1000}[r.IntN(3)]
+	c.Ballast = c19BallastChoices[r.IntN(len(c19BallastChoices))]
+	c.GCPercent = []int{5, 25, 100}[r.IntN(3)]
+	c.GCPauseUS = []int{5000, 10000, 25000}[r.IntN(3)]
 	c.PStore = r.IntN(300)
-	c.PLoaded = 20 + r.IntN(130)
+	c.PLoaded = 5 + r.IntN(40)
 	c.PPublish = r.IntN(300)
 	c.PBetween = r.IntN(500)
+	if v, err := strconv.Atoi(os.Getenv("C19_SEGS")); err == nil && v > 0 { // development aid
+		c.Segs = v
+	}
 	return c
 }
 
@@ -179,7 +182,8 @@ type c19World struct {
 	nWaitHit, nWaitMiss, nPointLoaded    atomic.Int64
 	nScans, nBytes, nFiles, nRegress     atomic.Int64
 	nAbsentOK, nVersionsWritten, nGC     atomic.Int64
-	nErrLogs                             atomic.Int64
+	nErrLogs, nScanStarts, nKeyChecks    atomic.Int64
+	nKeyCheckExpired, nsOps, nsKeyChecks atomic.Int64
 	verSeen                              sync.Map // [2]int{k,v} -> struct{}
 	overlapSeen                          sync.Map // string -> struct{}
 	sum                                  atomic.Uint64
@@ -404,14 +408,10 @@ func (w *c19World) waitReplaceGC(mode int) {
 				hit = true
 				break
 			}
-			if i%16 == 15 {
-				if time.Now().After(deadline) {
-					break
-				}
-				time.Sleep(50 * time.Microsecond)
-			} else {
-				runtime.Gosched()
+			if i%8 == 7 && time.Now().After(deadline) {
+				break
 			}
+			time.Sleep(100 * time.Microsecond)
 		}
 		if hit {
 			w.nWaitHit.Add(1)
@@ -477,13 +477,15 @@ func (w *c19World) gcLoop(done chan struct{}) {
 func (w *c19World) scanLoop(stop *atomic.Bool, done chan struct{}) {
 	defer close(done)
 	for !stop.Load() {
+		w.nScanStarts.Add(1)
 		if err := w.dw.scan(); err != nil {
 			w.harnessErr("scan", err)
 			return
 		}
 		w.nScans.Add(1)
 		w.track()
-		runtime.Gosched()
+		_, x := w.coin(0)
+		time.Sleep(time.Duration(500+x%2500) * time.Microsecond)
 	}
 }
 
@@ -612,8 +614,10 @@ func (w *c19World) oneSearch(p *c19Plan, last map[int]int) {
 	for k, o := range a.keys {
 		for v := range o.vers {
 			w.verSeen.LoadOrStore([2]int{k, v}, struct{}{})
-			if v < last[k] {
-				w.nRegress.Add(1) // observed, not judged: the statement promises no order
+			if v < last[k] && w.keyByNo(k) != nil && w.keyByNo(k).class != "F" {
+				// observed, not judged: the statement promises no order (F keys
+				// legitimately fall back to an older file when the _v17 file goes)
+				w.nRegress.Add(1)
 			}
 			last[k] = v
 		}
@@ -702,7 +706,7 @@ func (w *c19World) searcher(id int, done *sync.WaitGroup) {
 	for !w.stopSearch.Load() {
 		p := c19RandPlan(r, len(w.keys), w.cfg.Ballast > 0)
 		w.oneSearch(&p, last)
-		runtime.Gosched()
+		time.Sleep(time.Duration(2000+r.IntN(18000)) * time.Microsecond) // pacing: the mutators set the length of a run
 	}
 }
 
@@ -719,9 +723,13 @@ func (w *c19World) ballastPath() string {
 }
 
 // expectLoaded: per key the newest-format (<= NextIndexFormatVersion) existing file.
-func (w *c19World) expectLoaded() map[string]c19Want {
+func (w *c19World) expectLoaded(only *c19Key) map[string]c19Want {
 	out := map[string]c19Want{}
-	for _, key := range w.keys {
+	keys := w.keys
+	if only != nil {
+		keys = []*c19Key{only}
+	}
+	for _, key := range keys {
 		var best *c19FileState
 		for _, f := range key.files {
 			if f.exists && f.fm <= index.NextIndexFormatVersion && (best == nil || f.fm > best.fm) {
@@ -732,7 +740,7 @@ func (w *c19World) expectLoaded() map[string]c19Want {
 			out[best.path] = c19Want{key, best}
 		}
 	}
-	if w.cfg.Ballast > 0 {
+	if w.cfg.Ballast > 0 && only == nil {
 		out[w.ballastPath()] = c19Want{nil, &c19FileState{path: w.ballastPath(), fm: 16, exists: true, ver: c19PH}}
 	}
 	return out
@@ -749,11 +757,23 @@ func (w *c19World) fileByPath(p string) (*c19Key, *c19FileState) {
 	return nil, nil
 }
 
-// diff compares the loaded state with the model of the disk. Only called while no
-// mutator runs. timestamps may only be read when no other goroutine scans.
-func (w *c19World) diff(timestamps bool) []c19Fault {
+// diff compares the loaded state with the model of the disk. only == nil: every key
+// (no mutator may run); only != nil: that key alone (called by the mutator that owns
+// it, which is the only writer of its model). timestamps may only be read when no
+// other goroutine scans.
+func (w *c19World) diff(timestamps bool, only *c19Key) []c19Fault {
 	var out []c19Fault
 	add := func(sig, what string, detail any) { out = append(out, c19Fault{"convergence/" + sig, what, detail}) }
+	// keys whose loaded state is already refuted white-box: the client's view of them
+	// is a consequence and is not reported under a second signature.
+	explained := map[int]bool{}
+	explain := func(p string) {
+		if key, _ := w.fileByPath(p); key != nil {
+			explained[key.k] = true
+		} else {
+			explained[c19BallastKey] = true
+		}
+	}
 	w.ss.mu.Lock()
 	loaded := make(map[string]*rankedShard, len(w.ss.shards))
 	for k, v := range w.ss.shards {
@@ -769,53 +789,68 @@ func (w *c19World) diff(timestamps bool) []c19Fault {
 	for _, r := range loaded {
 		same = same && inRanked[r]
 	}
-	if !same {
+	if !same && only == nil {
 		add("published shard list differs from the shard map", fmt.Sprintf("shards map holds %d shards, the published ranked list %d (or other instances)", len(loaded), len(ranked)), nil)
 	}
-	exp := w.expectLoaded()
+	exp := w.expectLoaded(only)
 	base := filepath.Base
+	mine := func(p string) bool {
+		if only == nil {
+			return true
+		}
+		for _, f := range only.files {
+			if f.path == p {
+				return true
+			}
+		}
+		return false
+	}
+	addp := func(p, sig, what string, detail any) { explain(p); add(sig, what, detail) }
 	for p, want := range exp {
 		if loaded[p] == nil {
 			what := "newest-format shard file on disk is not loaded"
 			if want.key != nil && len(want.key.files) > 1 {
 				what += "/multi-format key"
 			}
-			add(what, fmt.Sprintf("%s (version %d) is on disk but not in the loaded set", base(p), want.f.ver), nil)
+			addp(p, what, fmt.Sprintf("%s (version %d) is on disk but not in the loaded set", base(p), want.f.ver), nil)
 		}
 	}
 	for p, r := range loaded {
+		if !mine(p) {
+			continue
+		}
 		want, ok := exp[p]
 		if !ok {
 			_, f := w.fileByPath(p)
 			switch {
 			case f == nil:
-				add("unknown file loaded", base(p), nil)
+				addp(p, "unknown file loaded", base(p), nil)
 			case !f.exists:
-				add("deleted shard file still loaded", fmt.Sprintf("%s was removed but is still in the loaded set", base(p)), nil)
+				addp(p, "deleted shard file still loaded", fmt.Sprintf("%s was removed but is still in the loaded set", base(p)), nil)
 			case f.fm > index.NextIndexFormatVersion:
-				add("future-format shard file loaded", fmt.Sprintf("%s is loaded", base(p)), nil)
+				addp(p, "future-format shard file loaded", fmt.Sprintf("%s is loaded", base(p)), nil)
 			default:
-				add("older-format shard file still loaded next to a newer one", fmt.Sprintf("%s is loaded although a newer format of the same name exists", base(p)), nil)
+				addp(p, "older-format shard file still loaded next to a newer one", fmt.Sprintf("%s is loaded although a newer format of the same name exists", base(p)), nil)
 			}
 			continue
 		}
 		f := want.f
 		wantTomb := f.meta != nil && f.meta.Tomb
 		if r.repos == nil {
-			add("loaded shard without cached repository list", base(p), nil)
+			addp(p, "loaded shard without cached repository list", base(p), nil)
 			continue
 		}
 		if wantTomb {
 			if len(r.repos) != 0 {
-				add("sidecar on disk not applied/tombstone", fmt.Sprintf("%s.meta (seq %d) tombstones the repository, the loaded shard still lists it (c19meta=%q)", base(p), f.meta.Seq, r.repos[0].RawConfig["c19meta"]), f.meta)
+				addp(p, "sidecar on disk not applied", fmt.Sprintf("%s.meta (seq %d) tombstones the repository, the loaded shard still lists it (c19meta=%q)", base(p), f.meta.Seq, r.repos[0].RawConfig["c19meta"]), f.meta)
 			}
 			continue
 		}
 		if len(r.repos) == 0 {
 			if f.meta == nil {
-				add("removed sidecar still applied/tombstone", fmt.Sprintf("%s has no .meta on disk, the loaded shard (content version %d on disk) is still tombstoned", base(p), f.ver), nil)
+				addp(p, "removed sidecar still applied", fmt.Sprintf("%s has no .meta on disk, the loaded shard (content version %d on disk) is still tombstoned", base(p), f.ver), nil)
 			} else {
-				add("older sidecar still applied/tombstone", fmt.Sprintf("%s.meta (seq %d) does not tombstone, the loaded shard is tombstoned", base(p), f.meta.Seq), f.meta)
+				addp(p, "older sidecar still applied", fmt.Sprintf("%s.meta (seq %d) does not tombstone, the loaded shard is tombstoned", base(p), f.meta.Seq), f.meta)
 			}
 			continue
 		}
@@ -827,27 +862,27 @@ func (w *c19World) diff(timestamps bool) []c19Fault {
 		switch {
 		case gotMeta == wantMeta:
 		case wantMeta == "":
-			add("removed sidecar still applied", fmt.Sprintf("%s has no .meta on disk, the loaded shard carries the metadata of sidecar seq %s (branch version %s, disk content version %d)", base(p), gotMeta, repo.Branches[0].Version, f.ver), nil)
+			addp(p, "removed sidecar still applied", fmt.Sprintf("%s has no .meta on disk, the loaded shard carries the metadata of sidecar seq %s (branch version %s, disk content version %d)", base(p), gotMeta, repo.Branches[0].Version, f.ver), nil)
 		case gotMeta == "":
-			add("sidecar on disk not applied", fmt.Sprintf("%s.meta (seq %s) is on disk, the loaded shard carries the shard's own metadata", base(p), wantMeta), f.meta)
+			addp(p, "sidecar on disk not applied", fmt.Sprintf("%s.meta (seq %s) is on disk, the loaded shard carries the shard's own metadata", base(p), wantMeta), f.meta)
 		default:
-			add("older sidecar still applied", fmt.Sprintf("%s.meta is seq %s on disk, the loaded shard carries seq %s", base(p), wantMeta, gotMeta), f.meta)
+			addp(p, "older sidecar still applied", fmt.Sprintf("%s.meta is seq %s on disk, the loaded shard carries seq %s", base(p), wantMeta, gotMeta), f.meta)
 		}
 		if gotMeta == wantMeta && repo.RawConfig["c19ver"] != c19Ver(wantBase) {
-			add("stale repository metadata loaded", fmt.Sprintf("%s: loaded metadata is of version %s, disk says %d", base(p), repo.RawConfig["c19ver"], wantBase), nil)
+			addp(p, "stale repository metadata loaded", fmt.Sprintf("%s: loaded metadata is of version %s, disk says %d", base(p), repo.RawConfig["c19ver"], wantBase), nil)
 		}
 		// content version: ask the loaded shard itself
 		sr, err := r.Searcher.Search(context.Background(), &query.Substring{Pattern: "c19 key=", Content: true, CaseSensitive: true}, &zoekt.SearchOptions{})
 		if err != nil || len(sr.Files) == 0 {
-			add("loaded shard cannot be searched", fmt.Sprintf("%s: err=%v", base(p), err), nil)
+			addp(p, "loaded shard cannot be searched", fmt.Sprintf("%s: err=%v", base(p), err), nil)
 			continue
 		}
 		_, v, _, _, _, ok := c19ParseName(sr.Files[0].FileName)
 		if !ok || v != f.ver {
-			add("stale content version loaded", fmt.Sprintf("%s: loaded content is version %d, the file on disk is version %d", base(p), v, f.ver), nil)
+			addp(p, "stale content version loaded", fmt.Sprintf("%s: loaded content is version %d, the file on disk is version %d", base(p), v, f.ver), nil)
 		}
 	}
-	if timestamps {
+	if timestamps && only == nil {
 		for p := range exp {
 			if _, ok := w.dw.timestamps[p]; !ok {
 				add("watcher timestamps differ from disk", fmt.Sprintf("%s is on disk but has no timestamp entry", base(p)), nil)
@@ -861,6 +896,9 @@ func (w *c19World) diff(timestamps bool) []c19Fault {
 	}
 	// the client's view
 	p := c19Plan{Op: "search", Q: "all", Whole: true}
+	if only != nil {
+		p = c19Plan{Op: "search", Q: "key", K: only.k, Whole: true}
+	}
 	files, stats, _, err := c19Run(w.sr, &p, nil)
 	if err != nil || stats.Crashes > 0 {
 		add("search fails at quiescence", fmt.Sprintf("err=%v crashes=%d", err, stats.Crashes), nil)
@@ -881,6 +919,9 @@ func (w *c19World) diff(timestamps bool) []c19Fault {
 		visible[k] = want.f
 	}
 	for k, f := range visible {
+		if explained[k] {
+			continue
+		}
 		o := a.keys[k]
 		if o == nil {
 			add("search answer differs from disk/repository missing", fmt.Sprintf("key %d (version %d on disk, not tombstoned) is absent from a search at quiescence", k, f.ver), nil)
@@ -898,9 +939,12 @@ func (w *c19World) diff(timestamps bool) []c19Fault {
 		}
 	}
 	for k := range a.keys {
-		if visible[k] == nil {
+		if visible[k] == nil && !explained[k] {
 			add("search answer differs from disk/repository should be invisible", fmt.Sprintf("key %d is deleted or tombstoned on disk but a search at quiescence returns it", k), nil)
 		}
+	}
+	if only != nil {
+		return out
 	}
 	lp := c19Plan{Op: "list", Q: "listall"}
 	_, _, rl, err := c19Run(w.sr, &lp, nil)
@@ -913,12 +957,12 @@ func (w *c19World) diff(timestamps bool) []c19Fault {
 		listed[int(e.Repository.ID)-1] = true
 	}
 	for k := range visible {
-		if !listed[k] {
+		if !listed[k] && !explained[k] {
 			add("list answer differs from disk/repository missing", fmt.Sprintf("key %d", k), nil)
 		}
 	}
 	for k := range listed {
-		if visible[k] == nil {
+		if visible[k] == nil && !explained[k] {
 			add("list answer differs from disk/repository should be invisible", fmt.Sprintf("key %d", k), nil)
 		}
 	}
@@ -948,13 +992,14 @@ func (w *c19World) reportDiff(where string, diffs []c19Fault) {
 // whether convergence was judged.
 func (w *c19World) checkpoint(label string) bool {
 	if w.cfg.Mode == "explicit" {
+		w.nScanStarts.Add(1)
 		if err := w.dw.scan(); err != nil {
 			w.harnessErr("scan", err)
 			return false
 		}
 		w.nScans.Add(1)
 		w.track()
-		w.reportDiff("after one scan() at quiescence ("+label+")", w.diff(true))
+		w.reportDiff("after one scan() at quiescence ("+label+")", w.diff(true, nil))
 		return true
 	}
 	// fsnotify: the watcher has to get there by itself; a generous watchdog bounds the
@@ -962,7 +1007,7 @@ func (w *c19World) checkpoint(label string) bool {
 	deadline := time.Now().Add(15 * time.Second)
 	for {
 		w.track()
-		if len(w.diff(false)) == 0 {
+		if len(w.diff(false, nil)) == 0 {
 			w.rec.Count("fsnotify_checkpoints_converged_by_watcher", 1)
 			return true
 		}
@@ -974,10 +1019,45 @@ func (w *c19World) checkpoint(label string) bool {
 	}
 }
 
+// keyCheck is the per-key form of the convergence claim (explicit mode): the owner
+// of key stops changing it, waits until one complete scan() that STARTED after the
+// last change has returned, and then that key must be loaded exactly as it is on
+// disk, whatever the other keys are doing. The wait is logical (scan counters); the
+// timer only bounds it.
+func (w *c19World) keyCheck(key *c19Key) {
+	s0 := w.nScanStarts.Load()
+	deadline := time.Now().Add(20 * time.Second)
+	for i := 0; w.nScans.Load() < s0+1; i++ {
+		if w.abort.Load() {
+			return
+		}
+		if i%64 == 63 && time.Now().After(deadline) {
+			w.nKeyCheckExpired.Add(1)
+			return
+		}
+		time.Sleep(100 * time.Microsecond)
+	}
+	w.nKeyChecks.Add(1)
+	diffs := w.diff(false, key)
+	for i := range diffs {
+		var files []any
+		for _, f := range key.files {
+			if f.exists {
+				files = append(files, map[string]any{"file": filepath.Base(f.path), "version": f.ver, "meta": f.meta})
+			}
+		}
+		diffs[i].detail = map[string]any{"detail": diffs[i].detail, "key": key.k, "class": key.class, "disk": files}
+	}
+	w.report(fmt.Sprintf("key %d unchanged since tick %d and a complete scan() started and returned since", key.k, w.tick.Load()), nil, diffs)
+}
+
 func (w *c19World) newWatcherLiteral(tl *loader) *DirectoryWatcher {
-	return &DirectoryWatcher{dir: w.dir, timestamps: map[string]time.Time{}, loader: tl,
+	var proto DirectoryWatcher // the value type of timestamps is zoekt's business
+	return &DirectoryWatcher{dir: w.dir, timestamps: c19EmptyLike(proto.timestamps), loader: tl,
 		ready: make(chan struct{}), quit: make(chan struct{}), stopped: make(chan struct{})}
 }
+
+func c19EmptyLike[M ~map[string]V, V any](M) M { return M{} }
 
 func c19MappedRegions(dir string) int {
 	b, err := os.ReadFile("/proc/self/maps")
@@ -1065,7 +1145,7 @@ func c19Child(rec *kit.Rec) {
 		rec.Violation("not ready after the initial load", "shardedSearcher.Ready() is false after the initial scan returned", map[string]any{"cfg": cfg})
 	}
 	w.track()
-	w.reportDiff("after the initial load", w.diff(cfg.Mode == "explicit"))
+	w.reportDiff("after the initial load", w.diff(cfg.Mode == "explicit", nil))
 
 	gcDone := make(chan struct{})
 	go w.gcLoop(gcDone)
@@ -1103,7 +1183,15 @@ func c19Child(rec *kit.Rec) {
 			go func(r *rand.Rand, n int) {
 				defer mwg.Done()
 				for i := 0; i < n && !w.abort.Load(); i++ {
-					w.doOp(mine[r.IntN(len(mine))], r)
+					key := mine[r.IntN(len(mine))]
+					t0 := time.Now()
+					w.doOp(key, r)
+					t1 := time.Now()
+					if cfg.Mode == "explicit" && r.IntN(12) == 0 {
+						w.keyCheck(key)
+					}
+					w.nsOps.Add(int64(t1.Sub(t0)))
+					w.nsKeyChecks.Add(int64(time.Since(t1)))
 					if r.IntN(3) == 0 {
 						runtime.Gosched()
 					}
@@ -1148,19 +1236,23 @@ func c19Child(rec *kit.Rec) {
 			w.harnessErr("final scan", err)
 		}
 		w.track()
-		w.reportDiff("after Stop() and one scan() at the end of the run", w.diff(true))
-		w.freshDifferential()
+		final := w.diff(true, nil)
+		w.reportDiff("after Stop() and one scan() at the end of the run", final)
+		if len(final) == 0 {
+			w.freshDifferential()
+		} else {
+			rec.Count("fresh_differentials_skipped(final state already refuted)", 1)
+		}
 	}
 	w.stopGC.Store(true)
 	<-gcDone
 
 	// evidence
-	mappedLive := c19MappedRegions(w.dir)
-	w.ss.Close()
-	for i := 0; i < 4; i++ {
+	for i := 0; i < 3; i++ {
 		runtime.GC()
-		time.Sleep(2 * time.Millisecond)
+		time.Sleep(time.Millisecond)
 	}
+	mappedLive := c19MappedRegions(w.dir)
 	w.trackMu.Lock()
 	collected := 0
 	for wp := range w.tracked {
@@ -1170,6 +1262,11 @@ func c19Child(rec *kit.Rec) {
 	}
 	nTracked := len(w.tracked)
 	w.trackMu.Unlock()
+	w.ss.Close()
+	for i := 0; i < 4; i++ {
+		runtime.GC()
+		time.Sleep(2 * time.Millisecond)
+	}
 	rec.Count("runs", 1)
 	rec.Count("runs_"+cfg.Mode, 1)
 	w.ops.Range(func(k, v any) bool { rec.Count("op_"+k.(string), v.(*atomic.Int64).Load()); return true })
@@ -1182,7 +1279,11 @@ func c19Child(rec *kit.Rec) {
 	rec.Count("waits_for_replace_hit", w.nWaitHit.Load())
 	rec.Count("waits_for_replace_expired", w.nWaitMiss.Load())
 	rec.Count("point_search_loaded", w.nPointLoaded.Load())
+	rec.Count("mutator_ms_in_directory_operations", w.nsOps.Load()/1e6)
+	rec.Count("mutator_ms_in_per_key_checks", w.nsKeyChecks.Load()/1e6)
 	rec.Count("scans", w.nScans.Load())
+	rec.Count("per_key_convergence_checks", w.nKeyChecks.Load())
+	rec.Count("per_key_convergence_checks_expired(inconclusive)", w.nKeyCheckExpired.Load())
 	rec.Count("replace_calls", w.replaceSeq.Load())
 	rec.Count("gc_cycles_forced", w.nGC.Load())
 	rec.Count("result_bytes_read", w.nBytes.Load())
@@ -1280,7 +1381,7 @@ func TestVerif_C19(t *testing.T) {
 		runs = v
 		first, _ = strconv.Atoi(os.Getenv("C19_FIRST"))
 	}
-	par := 4
+	par := 5
 	sem := make(chan struct{}, par)
 	var wg sync.WaitGroup
 	var mu sync.Mutex
